@@ -11,7 +11,6 @@ import (
 	"go/format"
 	"go/parser"
 	"go/token"
-	"os"
 	"path/filepath"
 	"regexp"
 	"strings"
@@ -53,7 +52,8 @@ func ruleR34(c *Ctx) {
 	// (2) generator: table, template name, output name from the AST of main.go
 	fset := token.NewFileSet()
 	mainPath := filepath.Join(genDir, "main.go")
-	mf, err := parser.ParseFile(fset, mainPath, nil, parser.ParseComments)
+	msrc, _ := c.L.readFile(mainPath)
+	mf, err := parser.ParseFile(fset, mainPath, msrc, parser.ParseComments)
 	if err != nil {
 		c.r.undecided("R34", "generator parses", "cmd/go-art/main.go", err.Error(), P)
 		return
@@ -162,7 +162,7 @@ func ruleR34(c *Ctx) {
 	c.r.ok("R34", "generator shape", "cmd/go-art/main.go", fmt.Sprintf("table of %d constant rows, template %s, output %s", len(table), tmplName, outFile), P)
 
 	// (3) render + format + compare
-	tsrc, err := os.ReadFile(filepath.Join(genDir, tmplName))
+	tsrc, err := c.L.readFile(filepath.Join(genDir, tmplName))
 	if err != nil {
 		c.r.undecided("R34", "template readable", "cmd/go-art/"+tmplName, err.Error(), P)
 		return
@@ -182,7 +182,7 @@ func ruleR34(c *Ctx) {
 		c.r.bad("R34", "rendered template is valid Go", "cmd/go-art/"+tmplName, err.Error(), P)
 		return
 	}
-	have, err := os.ReadFile(filepath.Join(repoDir, outFile))
+	have, err := c.L.readFile(filepath.Join(repoDir, outFile))
 	if err != nil {
 		c.r.bad("R34", "generated file present", outFile, err.Error(), P)
 		return
